@@ -167,6 +167,17 @@ def run_correspondence(pid, P, tier, seed, work, harness, run_model, load_tsv, k
             d[1] += 1
             continue
         mism.append(case)
+    # thorough tier of C08: every one of the 2^32 f32 values printed and read back (implementation only, 16 shards)
+    if pid == "C08" and tier == "thorough":
+        procs = [subprocess.Popen([harness, "f32all", str(i), "16"], stdout=subprocess.PIPE, stderr=subprocess.STDOUT, text=True) for i in range(16)]
+        bad = 0
+        for i, pr in enumerate(procs):
+            o, _ = pr.communicate(timeout=7000)
+            if pr.returncode != 0:
+                bad += 1
+                mism.append({"id": "f32all-%d" % i, "op": "f32all", "args": [str(i), "16"], "impl": o[-600:], "model": "every finite f32 reads back bit-identically", "kind": "api"})
+        stats.setdefault("stats", {})["f32 values swept (all bit patterns)"] = 2 ** 32
+        stats["evaluations"] = stats.get("evaluations", 0) + 2 ** 32
     # feature builds of the harness (sort_keys, arbitrary_precision): the same property run in each
     for feat in P.get("feature_builds", []):
         fh = harness.replace("/target/", "/target-%s/" % feat)
